@@ -463,6 +463,34 @@ class SpatialEventSelectionMethod(
 
         return arr
 
+    @staticmethod
+    def create_src_evt_mask(src_evt_idxs, n_sources, n_events):
+        """Creates the boolean mask of the source and event combinations
+        specified by the given source and event indices.
+
+        Parameters
+        ----------
+        src_evt_idxs : 2-tuple of 1d ndarrays of ints
+            The 2-element tuple holding the two 1d ndarrays of int of length
+            N_values, specifying to which sources the events belong to.
+        n_sources : int
+            The number of sources.
+        n_events : int
+            The number of events.
+
+        Returns
+        -------
+        mask : instance of ndarray
+            The (N_sources,N_events)-shaped numpy ndarray of bool, which is
+            ``True`` for the specified source and event combinations.
+        """
+        (src_idxs, evt_idxs) = src_evt_idxs
+
+        mask = np.zeros((n_sources, n_events), dtype=np.bool_)
+        mask[src_idxs, evt_idxs] = True
+
+        return mask
+
 
 class DecBandEventSectionMethod(
         SpatialEventSelectionMethod):
@@ -559,6 +587,11 @@ class DecBandEventSectionMethod(
                 (events['dec'] > src_dec_minus[:, np.newaxis]) &
                 (events['dec'] < src_dec_plus[:, np.newaxis])
             )
+            if src_evt_idxs is not None:
+                # Consider only the source and event combinations selected by
+                # a previous event selection method.
+                mask_dec &= self.create_src_evt_mask(
+                    src_evt_idxs, len(src_arr), len(events))
 
         # Determine the mask for the events that fall inside at least one
         # source declination band.
@@ -703,6 +736,11 @@ class RABandEventSectionMethod(
         # mask_ra is a (N_sources,N_events)-shaped ndarray.
         with TaskTimer(tl, 'ESM-RaBand: Calculate mask_ra.'):
             mask_ra = ra_dist < dRA_half[:, np.newaxis]
+            if src_evt_idxs is not None:
+                # Consider only the source and event combinations selected by
+                # a previous event selection method.
+                mask_ra &= self.create_src_evt_mask(
+                    src_evt_idxs, len(src_arr), len(events))
 
         # Determine the mask for the events that fall inside at least one
         # source sky window.
@@ -882,6 +920,11 @@ class SpatialBoxEventSelectionMethod(
             mask_sky = mask_ra & mask_dec
             del mask_ra
             del mask_dec
+            if src_evt_idxs is not None:
+                # Consider only the source and event combinations selected by
+                # a previous event selection method.
+                mask_sky &= self.create_src_evt_mask(
+                    src_evt_idxs, n_sources, len(events))
 
         # Determine the mask for the events that fall inside at least one
         # source sky window.
